@@ -46,6 +46,18 @@ func (p *Prog) listenerFields(nt *types.Named) []FieldRef {
 		return nil
 	}
 	out := fieldsOfType(nt, types.NewSlice(lc))
+	// a named slice type over the listener type (type changeListeners []core.LimitChangeListener) is the same collection
+	if st, ok := nt.Underlying().(*types.Struct); ok {
+		for i := 0; i < st.NumFields(); i++ {
+			ft := st.Field(i).Type()
+			if _, isNamed := ft.(*types.Named); !isNamed {
+				continue
+			}
+			if sl, ok := ft.Underlying().(*types.Slice); ok && types.Identical(sl.Elem(), lc) {
+				out = append(out, FieldRef{Type: nt, Index: i, Name: st.Field(i).Name()})
+			}
+		}
+	}
 	// the collection (with its mutex) may be grouped into a struct held by value in the limit type
 	if st, ok := nt.Underlying().(*types.Struct); ok {
 		for i := 0; i < st.NumFields(); i++ {
